@@ -27,7 +27,8 @@ import numpy as np
 import warnings
 
 from holopy.scattering.scatterer import Sphere, Spheroid, Cylinder
-from holopy.scattering.errors import TheoryNotCompatibleError, TmatrixFailure
+from holopy.scattering.errors import (TheoryNotCompatibleError, TmatrixFailure,
+                                      InvalidScatterer)
 from holopy.core.errors import DependencyMissing
 from holopy.scattering.theory.scatteringtheory import ScatteringTheory
 try:
@@ -71,6 +72,11 @@ class Tmatrix(ScatteringTheory):
     def raw_scat_matrs(self, scatterer, pos, medium_wavevec, medium_index):
         args = self._parse_args(scatterer, pos, medium_wavevec, medium_index)
         s = self._run_tmat(args)
+        if s is None:
+            msg = ("T-matrix calculation failed: the size, aspect ratio or "
+                   "orientation is outside what the compiled code can "
+                   "handle.")
+            raise InvalidScatterer(scatterer, msg)
         return s
 
     def _parse_args(self, scatterer, pos, medium_wavevec, medium_index):
@@ -110,6 +116,14 @@ class Tmatrix(ScatteringTheory):
         ndgs = 5
         alpha = scatterer.rotation[2] * 180 / np.pi
         beta = scatterer.rotation[1] * 180 / np.pi
+        # The Fortran code only accepts 0 <= alpha <= 360, 0 <= beta <= 180
+        # (and stops the process otherwise); map other values to the
+        # equivalent orientation of the symmetry axis inside that range.
+        beta = beta % 360
+        if beta > 180:
+            beta = 360 - beta
+            alpha = alpha + 180
+        alpha = alpha % 360
 
         # FIXME: Why does the incident polarization have to be set to  (1, 0)?
         thet0 = 0
@@ -126,7 +140,9 @@ class Tmatrix(ScatteringTheory):
     def _run_tmat(self, args):
         med_wavelen = args[2]
         nang = args[-1]
-        s11, s12, s21, s22 = ampld(*args)
+        s11, s12, s21, s22, failed = ampld(*args)
+        if failed or not np.isfinite([s11, s12, s21, s22]).all():
+            return None
         for s in [s11, s12, s21, s22]:
             s *= (-2j*np.pi/med_wavelen)
         # ampld returns Mishchenko's amplitude matrix, which maps the lab
